@@ -95,6 +95,27 @@ class RingModel:
             return False, None
         if site["kind"] == "inline":
             st = site["ast"]
+            # conditions on the marker that enclose the completion (e.g. `if not marker: skip`) belong to it: the outermost
+            # enclosing `if` inside the scan loop whose test mentions the marker is what is executed
+            mname = site["marker"].id if isinstance(site["marker"], ast.Name) else None
+            if mname:
+                chain = []
+
+                def find(n, path):
+                    if n is site["ast"]:
+                        chain.extend(path)
+                        return True
+                    for c in ast.iter_child_nodes(n):
+                        if isinstance(c, (ast.FunctionDef, ast.Lambda)):
+                            continue
+                        if find(c, path + ([n] if isinstance(n, ast.If) else [])):
+                            return True
+                    return False
+                find(self.fi.node, [])
+                for anc in chain:
+                    if any(isinstance(x, ast.Name) and x.id == mname for x in ast.walk(anc.test)):
+                        st = anc
+                        break
             list_names = {x.func.value.id for x in ast.walk(st) if isinstance(x, ast.Call) and isinstance(x.func, ast.Attribute) and x.func.attr in ("append", "extend")
                           and isinstance(x.func.value, ast.Name)}
             marker_src = ast.unparse(site["marker"])
